@@ -370,7 +370,9 @@ def judge (d : DState) : Verdict × DState :=
         let v := v.check "C13" "coherent" (coherent env m)
         let v := v.check "C13" "C13_stored" (C13_stored env m s')
         v.check "C13" "unknownKeys" (!hasUnknown p.deltas)
-      else v.check "C13" "coherent_refused" (!coherent env m)
+      else
+        let v := v.check "C13" "coherent_refused" (!coherent env m)
+        if p.deltas.isEmpty then v else v.check "C13" "refused_changes_nothing" false
     (v, { d with st := if implOk then some s' else d.st,
                  shadow := ⟨[], []⟩, feeTracked := true,
                  roles := if implOk then some (m.approvers, m.executors) else d.roles })
@@ -405,6 +407,12 @@ def judge (d : DState) : Verdict × DState :=
             | none => v
           v.check "C11" "unknownKeys" (!hasUnknown p.deltas)
         else judgeRefused env s c isProbe d.carried v
+      -- a refused request must not have written anything (the harness reports what a refused call
+      -- left in storage before the rollback it emulates)
+      let v := if !implOk && !p.deltas.isEmpty then
+          (acceptProps c.msg ++ (if authorized s c.sender c.msg then [] else ["C05"]) ++ ["C11"]).eraseDups.foldl
+            (fun (v : Verdict) (pr : String) => v.check pr "refused_changes_nothing" false) v
+        else v
       let roles' := match d.roles, c.msg with
         | some (aps, exs), .modify ap ex _ _ _ _ _ _ =>
           if implOk && !isProbe then some (ap.getD aps, ex.getD exs) else d.roles
